@@ -74,6 +74,10 @@ class RDD:
         return iter(split.x())
 
     def partitions(self):
+        if self._p is None:
+            # this is the copy of a dataset that was shipped to a task (without
+            # its data): a task must not run jobs on it
+            raise ContextIsLockedException
         return self._p
 
     #
